@@ -355,13 +355,48 @@ Section Core.
       Ser g (p_ty p) x = Some w /\ De g (p_ty p) w = Some x /\
       (skip_if T p x = true -> missing T (De g) (Dflt g) p = Some x).
 
-  Lemma skip_missing p x g : 0 < g -> skip_if T p x = true -> missing T (De g) (Dflt g) p = Some x.
+  Lemma skip_cases p x : skip_if T p x = true ->
+    p_state p = POptional /\
+    ((exists t, unbox_det T (p_ty p) = Some (DOption t) /\ x = ROptNone) \/
+     (exists t, unbox_det T (p_ty p) = Some (DVec t) /\ x = RSeq []) \/
+     (exists k v, unbox_det T (p_ty p) = Some (DMap k v) /\ x = RMap [])).
   Proof.
-    intros Hg. destruct g as [|g]; [lia|]. unfold skip_if, missing.
-    destruct (p_state p); try discriminate. cbn [default_val].
-    destruct (get_det T (p_ty p)) as [[]|]; try discriminate;
+    unfold skip_if. destruct (p_state p); try discriminate.
+    destruct (unbox_det T (p_ty p)) as [[]|]; try discriminate;
       destruct x as [| | | | | | |l|l| | | |]; try discriminate;
-      try (destruct l; try discriminate); intros _; reflexivity.
+      try (destruct l; try discriminate); intros _; split; eauto 6.
+  Qed.
+
+  (* the default of a type whose (unboxed) details are Option / Vec / Map *)
+  Lemma dflt_unboxed t d g :
+    unbox_det T t = Some d -> 2 <= g ->
+    match d with
+    | DOption _ => default_val T g t = Some ROptNone
+    | DVec _ => default_val T g t = Some (RSeq [])
+    | DMap _ _ => default_val T g t = Some (RMap [])
+    | _ => True
+    end.
+  Proof.
+    intros Hu Hg. destruct g as [|[|g]]; try lia. unfold unbox_det in Hu.
+    destruct (get_det T t) as [dt|] eqn:Et; [|discriminate].
+    destruct dt as [? ? ? ? ? ?|? ? ? ?|? ? ? ?|? ? ?|?|b|?|? ?|?|? ?|?| | |?|?| | |?];
+      try (injection Hu as <-; cbn [default_val]; try rewrite Et; first [exact I | reflexivity]).
+    (* Box *)
+    destruct (get_det T b) as [db|] eqn:Eb; injection Hu as <-; [|exact I].
+    destruct db; try exact I; cbn [default_val]; rewrite Et, Eb; reflexivity.
+  Qed.
+
+  Lemma skip_missing p x g : 2 <= g -> skip_if T p x = true -> missing T (De g) (Dflt g) p = Some x.
+  Proof.
+    intros Hg Hs. destruct (skip_cases p x Hs) as [Hst Hc]. unfold missing. rewrite Hst.
+    destruct Hc as [(t & Hu & ->)|[(t & Hu & ->)|(k & v & Hu & ->)]];
+      exact (dflt_unboxed _ _ g Hu Hg).
+  Qed.
+
+  Lemma src_pos f p x : member_src T (De f) (Dflt f) p x -> p_state p = POptional -> 1 <= f.
+  Proof.
+    intros [[j Hj]|Hm] Hst; (destruct f; [|lia]); [discriminate Hj|].
+    unfold missing in Hm. rewrite Hst in Hm. discriminate Hm.
   Qed.
 
   Lemma member_fact f p x :
@@ -378,7 +413,8 @@ Section Core.
         + apply dflt_rt; assumption.
         + destruct (HP _ _ _ Ht Hm) as (w & Hw & _). eauto. }
     destruct Hrt as [w Hw]. exists w. intros g Hg. destruct (Hw g Hg) as [A B]. repeat split; auto.
-    apply skip_missing. lia.
+    intros Hsk. apply skip_missing; [|exact Hsk].
+    pose proof (src_pos f p x Hsrc (proj1 (skip_cases p x Hsk))). lia.
   Qed.
 
   Lemma no_flatten_cases p : no_flatten p = true -> p_rename p = RNone \/ exists s, p_rename p = RRename s.
@@ -792,33 +828,27 @@ Proof.
 Qed.
 
 (* ------------------------------------------------------------------ DESIGN 3.7 on the model *)
-(* An Optional member whose type is Box<Option<_>> is never skipped, and its
-   absent value (Default::default() = None) is emitted as null. *)
-Lemma boxed_option_never_skipped T p b x :
-  get_det T (p_ty p) = Some (DBox b) -> skip_if T p x = false.
-Proof. intros H. unfold skip_if. rewrite H. destruct (p_state p); reflexivity. Qed.
+(* After fix b9da3ef the attribute selection looks through one Box: an Optional
+   member of type Box<Option<_>> whose value is None is skipped like an
+   Option<_> member, an absent one is read as None, so nothing is emitted. *)
+Lemma boxed_option_skipped T p b u :
+  p_state p = POptional -> get_det T (p_ty p) = Some (DBox b) -> get_det T b = Some (DOption u) ->
+  skip_if T p ROptNone = true.
+Proof. intros Hs Ht Hb. unfold skip_if, unbox_det. rewrite Hs, Ht, Hb. reflexivity. Qed.
 
-Lemma boxed_option_null T t b u g :
-  get_det T t = Some (DBox b) -> get_det T b = Some (DOption u) ->
-  match get_det T u with Some (DOption _) => false | _ => true end = true ->
-  default_val T (S (S g)) t = Some ROptNone /\ ser T (S (S g)) t ROptNone = Some JNull.
-Proof.
-  intros Ht Hb Hu. split.
-  - cbn [default_val]. rewrite Ht, Hb. reflexivity.
-  - rewrite ser_S, Ht. cbn [ser_node]. rewrite ser_S, Hb. rewrite ser_node_option by exact Hu. reflexivity.
-Qed.
+Lemma boxed_option_absent_is_none T p b u dr g :
+  p_state p = POptional -> get_det T (p_ty p) = Some (DBox b) -> get_det T b = Some (DOption u) ->
+  missing T dr (default_val T (S (S g))) p = Some ROptNone.
+Proof. intros Hs Ht Hb. unfold missing. rewrite Hs. cbn [default_val]. rewrite Ht, Hb. reflexivity. Qed.
 
-Lemma boxed_option_member_emits_null T p b u w g fs :
-  p_state p = POptional -> wire_name p = Some w -> p_rename p <> RFlatten ->
+Lemma boxed_option_member_omitted T sr p b u fs :
+  p_state p = POptional -> p_rename p <> RFlatten ->
   get_det T (p_ty p) = Some (DBox b) -> get_det T b = Some (DOption u) ->
-  match get_det T u with Some (DOption _) => false | _ => true end = true ->
-  missing T (de (fun _ _ => false) (fun _ _ => false) T (S (S g))) (default_val T (S (S g))) p = Some ROptNone /\
-  ser_fields T (ser T (S (S g))) [p] ((p_name p, ROptNone) :: fs) = Some [(w, JNull)].
+  ser_fields T sr [p] ((p_name p, ROptNone) :: fs) = Some [].
 Proof.
-  intros Hs Hw Hr Ht Hb Hu. destruct (boxed_option_null T (p_ty p) b u g Ht Hb Hu) as [A B]. split.
-  - unfold missing. rewrite Hs. exact A.
-  - cbn [ser_fields assoc]. rewrite ustr_eqb_refl, (boxed_option_never_skipped T p b ROptNone Ht), Hw, B.
-    destruct (p_rename p); try reflexivity. congruence.
+  intros Hs Hr Ht Hb. cbn [ser_fields assoc].
+  rewrite ustr_eqb_refl, (boxed_option_skipped T p b u Hs Ht Hb).
+  destruct (p_rename p); try reflexivity. congruence.
 Qed.
 
 (* ------------------------------------------------------------------ untagged enums *)
